@@ -173,8 +173,44 @@ Definition prev_phase_eqb (a b : prev_phase) : bool :=
   | _, _ => false
   end.
 
+(** *** No step is skipped: the steps that must have been executed EARLIER for the same instruction.
+    Before the main step of an instruction of [setup] / [cleanup]: its symbol validation and its
+    pre-sandbox validation; of [before-assert] / [assert]: also its post-setup validation (which for
+    [setup] itself runs after setup's main steps, and which [cleanup] does not have).  The steps of
+    the action to check come in the fixed order parse, symbols, validate-pre-sds, validate-post-setup,
+    validate-exe-input, prepare, execute: each is preceded by all the earlier ones.
+    (Under --act the main steps of before-assert / assert are not executed: nothing is demanded.) *)
+Definition is_step (p : phase) (k : stepk) (i : nat) (e : event) : bool :=
+  match e with
+  | EInstr p' k' i' _ => phase_eqb p p' && stepk_eqb k k' && Nat.eqb i i'
+  | _ => false
+  end.
+Definition required_before (p : phase) (k : stepk) : list stepk :=
+  match p, k with
+  | (Setup | Cleanup), SMain => [SValSym; SValPre]
+  | (BeforeAssert | Assert), SMain => [SValSym; SValPre; SValPost]
+  | Act, SValSym => [SActParse]
+  | Act, SValPre => [SActParse; SValSym]
+  | Act, SValPost => [SActParse; SValSym; SValPre]
+  | Act, SValExeInput => [SActParse; SValSym; SValPre; SValPost]
+  | Act, SPrepare => [SActParse; SValSym; SValPre; SValPost; SValExeInput]
+  | Act, SExecute => [SActParse; SValSym; SValPre; SValPost; SValExeInput; SPrepare]
+  | _, _ => []
+  end.
+(** [seen]: the events before the current one (latest first) *)
+Fixpoint nss_from (seen : list event) (l : list event) : bool :=
+  match l with
+  | [] => true
+  | e :: l' =>
+      match e with
+      | EInstr p k i _ => forallb (fun k' => existsb (is_step p k' i) seen) (required_before p k)
+      | _ => true
+      end && nss_from (e :: seen) l'
+  end.
+Definition no_step_skipped (tr : list event) : bool := nss_from [] tr.
+
 (** The property stated directly on the observed behaviour (independent of [partial_execute]):
-    validation first; halts at the first failure; cleanup exactly once iff sandbox; never a
+    validation first; no step skipped; halts at the first failure; cleanup exactly once iff sandbox; never a
     success when an executed step failed; the named step is a failing executed step. *)
 Definition P_C01 (tc : testcase) (o : c01_obs) : bool :=
   let tr := o_trace o in
@@ -182,6 +218,8 @@ Definition P_C01 (tc : testcase) (o : c01_obs) : bool :=
   let cleanup_evs := filter is_cleanup_main tr in
   let failed_events := filter (fun e => match outcome (beh_of_event tc e) with Some _ => true | None => false end) tr in
   sorted_validation_first false tr &&
+  (* no step of an instruction (of the action to check) is skipped before its main step (execute) *)
+  no_step_skipped tr &&
   all_before_ok tc non_cleanup && all_before_ok tc cleanup_evs &&
   (* cleanup runs exactly once iff the sandbox exists (observable when [cleanup] is non-empty) *)
   Nat.eqb (length (filter (fun e => match e with EInstr Cleanup SMain 0 _ => true | _ => false end) tr))
